@@ -74,8 +74,21 @@ def _expr(e, term, tag):
             return ("add_epoch", _expr(r, term, tag))
         if isinstance(r, ast.Name) and r.id == "UTC_ZERO":
             return ("add_epoch", _expr(l, term, tag))
+    if isinstance(e, ast.BinOp) and isinstance(e.op, (ast.Mult, ast.Div)):
+        l, r = e.left, e.right
+        if isinstance(r, ast.Constant) and isinstance(r.value, (int, float)) and r.value:
+            return ("scale", Fraction(r.value) if isinstance(e.op, ast.Mult) else 1 / Fraction(r.value), _expr(l, term, tag))
+        if isinstance(l, ast.Constant) and isinstance(l.value, (int, float)) and isinstance(e.op, ast.Mult):
+            return ("scale", Fraction(l.value), _expr(r, term, tag))
     if isinstance(e, ast.Call):
         f = e.func
+        if isinstance(f, ast.Attribute) and f.attr in ("replace", "astimezone"):
+            # value.replace(tzinfo=timezone.utc): relabels the wall-clock fields; value.astimezone(timezone.utc): same instant
+            arg = e.keywords[0].value if (f.attr == "replace" and len(e.keywords) == 1 and e.keywords[0].arg == "tzinfo" and not e.args) else \
+                (e.args[0] if f.attr == "astimezone" and len(e.args) == 1 else None)
+            is_utc = isinstance(arg, ast.Attribute) and arg.attr == "utc" and getattr(arg.value, "id", None) == "timezone"
+            if is_utc:
+                return ("as_utc" if f.attr == "replace" else "astz_utc", _expr(f.value, term, tag))
         if isinstance(f, ast.Attribute) and f.attr == "total_seconds" and not e.args:
             return ("total_seconds", _expr(f.value, term, tag))
         if isinstance(f, ast.Attribute) and f.attr == "fromtimestamp":
@@ -138,8 +151,10 @@ def _type_after_chain(term, tag):
         return "float"
     if k in ("sub_epoch", "td_from_seconds", "td_from_microseconds"):
         return "timedelta"
-    if k in ("add_epoch", "fromtimestamp", "fromtimestamp_naive"):
+    if k in ("add_epoch", "fromtimestamp", "fromtimestamp_naive", "as_utc", "astz_utc"):
         return "datetime"
+    if k == "scale":
+        return "float"
     raise Cannot(term)
 
 
@@ -150,22 +165,52 @@ def encode(term, x, solver, z3, fresh):
     k = term[0]
     if k == "id":
         return x
-    if k in ("sub_epoch", "add_epoch"):
-        return encode(term[1], x, solver, z3, fresh)  # exact integer microsecond arithmetic, epoch = 0
+    if k == "sub_epoch":
+        v = encode(term[1], x, solver, z3, fresh)  # aware datetime - epoch: the instant; exact integer microsecond arithmetic
+        return v["w"] - v["o"] if isinstance(v, dict) else v
+    if k == "add_epoch":
+        return {"w": encode(term[1], x, solver, z3, fresh), "o": z3.IntVal(0)}
+    if k in ("as_utc", "astz_utc"):
+        v = encode(term[1], x, solver, z3, fresh)
+        if not isinstance(v, dict):
+            raise Cannot(term)
+        return {"w": v["w"] if k == "as_utc" else v["w"] - v["o"], "o": z3.IntVal(0)}
+    if k == "scale":
+        v = encode(term[2], x, solver, z3, fresh)
+        if isinstance(v, dict):
+            raise Cannot(term)
+        v = z3.ToReal(v) if z3.is_int(v) else v
+        r = fresh("m", z3.Real)
+        exact = v * z3.RealVal(term[1])
+        ae = z3.If(exact >= 0, exact, -exact)
+        solver.add(r - exact <= z3.RealVal(EPS) * ae, exact - r <= z3.RealVal(EPS) * ae)
+        return r
+    if k == "td_from_microseconds":
+        v = encode(term[1], x, solver, z3, fresh)
+        u = fresh("u", z3.Int)
+        v = z3.ToReal(v) if z3.is_int(v) else v
+        solver.add(z3.ToReal(u) - v <= z3.RealVal(Fraction(1, 2)), v - z3.ToReal(u) <= z3.RealVal(Fraction(1, 2)))
+        return u
     if k == "total_seconds":
         u = encode(term[1], x, solver, z3, fresh)
-        s = fresh("s", z3.Real)
+        if isinstance(u, dict):
+            raise Cannot(term)
+        # total_seconds is a function of the microsecond count (equal instants give equal seconds)
+        s = _TS(z3)(u)
         # correctly rounded int/int true division: |s*10^6 - u| <= 2^-53 |u|
         au = z3.If(u >= 0, u, -u)
         solver.add(s * US - z3.ToReal(u) <= z3.RealVal(EPS) * z3.ToReal(au), z3.ToReal(u) - s * US <= z3.RealVal(EPS) * z3.ToReal(au))
         return s
     if k in ("td_from_seconds", "fromtimestamp"):
         s = encode(term[1], x, solver, z3, fresh)
+        if isinstance(s, dict):
+            raise Cannot(term)
+        s = z3.ToReal(s) if z3.is_int(s) else s
         u = fresh("u", z3.Int)
         # modf (exact), 10^6*frac rounded once (relative error 2^-53, |frac| < 1), round-half-even to an integer
         slack = z3.RealVal(Fraction(1, 2) + EPS * US)
         solver.add(z3.ToReal(u) - s * US <= slack, s * US - z3.ToReal(u) <= slack)
-        return u
+        return {"w": u, "o": z3.IntVal(0)} if k == "fromtimestamp" else u
     if k in ("int", "round"):
         v = encode(term[1], x, solver, z3, fresh)
         i = fresh("i", z3.Int)
@@ -198,6 +243,29 @@ def encode(term, x, solver, z3, fresh):
     raise Cannot(term)
 
 
+_TSF = {}
+
+
+def _TS(z3):
+    if "f" not in _TSF:
+        _TSF["f"] = z3.Function("total_seconds", z3.IntSort(), z3.RealSort())
+    return _TSF["f"]
+
+
+def _instant(v):
+    return v["w"] - v["o"] if isinstance(v, dict) else v
+
+
+DAY = 86400 * US
+
+
+def _dt_input(z3, s, name, B):
+    """an aware datetime: wall-clock microseconds w, UTC offset o (strictly between -24 h and 24 h), instant w - o in [0, B)"""
+    w, o = z3.Int(name + "_w"), z3.Int(name + "_o")
+    s.add(o > -DAY, o < DAY, w - o >= 0, w - o < B)
+    return {"w": w, "o": o}
+
+
 def _solver():
     import z3
     s = z3.Solver()
@@ -215,123 +283,210 @@ def _terms():
             "to_timedelta": translate(Scheduler.to_timedelta.__func__)}
 
 
-def _real(kind, u):
-    """the real RxPY conversion chain on a concrete microsecond count; returns the resulting microsecond count"""
+def _mk(kind, u, off=0):
+    """the concrete value of a kind: timedelta of u us / aware datetime at instant u us written with UTC offset `off` us"""
+    from reactivex.scheduler.scheduler import UTC_ZERO
+    if kind == "timedelta":
+        return timedelta(microseconds=u)
+    d = UTC_ZERO + timedelta(microseconds=u)
+    return d.astimezone(timezone(timedelta(microseconds=off))) if off else d
+
+
+def _us(td):
+    return (td.days * 86400 + td.seconds) * US + td.microseconds
+
+
+def _real(kind, u, off=0):
+    """the real RxPY conversion chain on a concrete value; returns the resulting microsecond count (instant for datetimes).
+    kinds: timedelta / datetime (through float seconds), datetime_td (datetime -> timedelta -> datetime)"""
     from reactivex.scheduler.scheduler import Scheduler, UTC_ZERO
     if kind == "timedelta":
-        td = timedelta(microseconds=u)
-        r = Scheduler.to_timedelta(Scheduler.to_seconds(td))
-        return (r.days * 86400 + r.seconds) * US + r.microseconds
-    d = UTC_ZERO + timedelta(microseconds=u)
-    r = Scheduler.to_datetime(Scheduler.to_seconds(d)) - UTC_ZERO
-    return (r.days * 86400 + r.seconds) * US + r.microseconds
+        return _us(Scheduler.to_timedelta(Scheduler.to_seconds(_mk(kind, u))))
+    d = _mk("datetime", u, off)
+    if kind == "datetime_td":
+        return _us(Scheduler.to_datetime(Scheduler.to_timedelta(d)) - UTC_ZERO)
+    return _us(Scheduler.to_datetime(Scheduler.to_seconds(d)) - UTC_ZERO)
 
 
 BOUND_S = 2 ** 32  # seconds
+OFFS = [0, 1, -1, 3600 * US, -3600 * US, 2 * 3600 * US, 19800 * US, -DAY + 1, DAY - 1]
+
+
+def _points(kind, rng, n):
+    B = BOUND_S * US
+    lo = -B + 1 if kind == "timedelta" else 0
+    pts = [(p, 0) for p in (0, 1, 2 if kind != "timedelta" else -1, 999999, 10 ** 6, 1000001, 86400 * US, 86400 * US + 1, B - 1, B - 2, (B // 2) + 1,
+                            1234567890123456)]
+    for _ in range(n):
+        pts.append((rng.randrange(lo, B), 0 if kind == "timedelta" else rng.choice(OFFS + [rng.randrange(-DAY + 1, DAY)])))
+    if kind != "timedelta":
+        pts += [(p, o) for p, _ in pts[:12] for o in OFFS[1:]]
+    return pts
+
+
+def _concrete_roundtrip(kind, n, seed):
+    """concrete search on the real functions: returns a REFUTED result or None"""
+    rng = random.Random(seed)
+    for p, o in _points(kind, rng, n):
+        try:
+            got = _real(kind, p, o)
+        except Exception as ex:  # noqa: BLE001
+            return {"status": "REFUTED", "replayed": True, "args": {"u": p, "off": o}, "replay_detail": "real %s round trip of %d us (offset %d us) raised %r" % (kind, p, o, ex)}
+        if got != p:
+            return {"status": "REFUTED", "replayed": True, "args": {"u": p, "off": o},
+                    "replay_detail": "real %s round trip of %d us (UTC offset %d us) gives %d us" % (kind, p, o, got)}
+    return None
 
 
 def q_roundtrip(inst, timeout):
-    """aligned value -> seconds -> same type: must be the identity for |t| < 2^32 s"""
+    """aligned value -> seconds (or timedelta) -> same type: must be the identity for |t| < 2^32 s, for every UTC offset"""
     t0 = time.time()
     kind = inst["kind"]
     try:
         T = _terms()
         z3, s, fresh = _solver()
-        u = z3.Int("u")
         B = BOUND_S * US
-        s.add(u > -B, u < B)
-        if kind == "datetime":
-            s.add(u >= 0)  # datetime.fromtimestamp of negative timestamps is platform dependent: aware datetimes from the epoch on
-        sec = encode(T["to_seconds"][kind], u, s, z3, fresh)
-        back = encode(T["to_timedelta" if kind == "timedelta" else "to_datetime"]["float"], sec, s, z3, fresh)
-        s.add(back != u)
+        if kind == "timedelta":
+            u = z3.Int("u")
+            s.add(u > -B, u < B)
+            x, inst_u = u, u
+        else:
+            # datetime.fromtimestamp of negative timestamps is platform dependent: aware datetimes from the epoch on
+            x = _dt_input(z3, s, "d", B)
+            inst_u = _instant(x)
+        if kind == "datetime_td":
+            mid = encode(T["to_timedelta"]["datetime"], x, s, z3, fresh)
+            back = encode(T["to_datetime"]["timedelta"], mid, s, z3, fresh)
+        else:
+            sec = encode(T["to_seconds"]["datetime" if kind != "timedelta" else kind], x, s, z3, fresh)
+            back = encode(T["to_timedelta" if kind == "timedelta" else "to_datetime"]["float"], sec, s, z3, fresh)
+        s.add(_instant(back) != inst_u)
         s.set("timeout", int(timeout * 1000))
         r = s.check()
     except Cannot as e:
         # the source left the translator's subset: not a pass.  Before reporting a harness error, look for a concrete
         # counterexample on the real functions (a reproduced violation is reported as such)
-        rng = random.Random(7)
-        B = BOUND_S * US
-        for p in [0, 1, 999999, 10 ** 6, 86400 * US, 86400 * US + 1, B - 1] + [rng.randrange(0, B) for _ in range(5000)]:
-            try:
-                got = _real(kind, p)
-            except Exception as ex:
-                return {"status": "REFUTED", "replayed": True, "args": {"u": p}, "replay_detail": "real %s round trip of %d us raised %r" % (kind, p, ex)}
-            if got != p:
-                return {"status": "REFUTED", "replayed": True, "args": {"u": p},
-                        "replay_detail": "real %s round trip of %d us gives %d us (found by concrete replay: translator cannot encode %r)" % (kind, p, got, e.args)}
+        hit = _concrete_roundtrip(kind, 5000, 7)
+        if hit:
+            hit["replay_detail"] += " (found by concrete replay: translator cannot encode %r)" % (e.args,)
+            return hit
         return {"status": "ERROR", "message": "translator cannot encode %r" % (e.args,)}
     res = {"queries": 1, "solver_s": round(time.time() - t0, 3), "paths": 1}
     if str(r) == "unsat":
-        # primitive-model validation against CPython on boundary and random points (harness error on disagreement)
-        rng = random.Random(int(__import__("os").environ.get("VERIF_SEED", "0") or 0))
-        pts = [0, 1, -1 if kind == "timedelta" else 2, 999999, 10 ** 6, B - 1, B - 2, (B // 2) + 1, 1234567890123456]
-        pts += [rng.randrange(0 if kind == "datetime" else -B + 1, B) for _ in range(2000)]
-        bad = [p for p in pts if _real(kind, p) != p]
-        if bad:
-            return dict(res, status="REFUTED", replayed=True, args={"u": bad[0]}, replay_detail="real %s round trip of %d us gives %d" % (kind, bad[0], _real(kind, bad[0])),
-                        message="solver says holds but CPython disagrees: model error or genuine violation")
-        return dict(res, status="CONFIRMED", covered=["__end__"], sample={"validated_points": len(pts)})
+        # primitive-model validation against CPython on boundary and random points (a disagreement is a model error or a violation)
+        hit = _concrete_roundtrip(kind, 2000, int(__import__("os").environ.get("VERIF_SEED", "0") or 0))
+        if hit:
+            return dict(res, message="solver says holds but CPython disagrees: model error or genuine violation", **hit)
+        return dict(res, status="CONFIRMED", covered=["__end__"], sample={"validated_points": 2000})
     if str(r) == "sat":
         m = s.model()
-        cu = m[u].as_long()
-        got = _real(kind, cu)
+        if kind == "timedelta":
+            cu, co = m.eval(u, model_completion=True).as_long(), 0
+        else:
+            co = m.eval(x["o"], model_completion=True).as_long()
+            cu = m.eval(x["w"], model_completion=True).as_long() - co
+        try:
+            got = _real(kind, cu, co)
+        except Exception as ex:  # noqa: BLE001
+            got = repr(ex)
         if got != cu:
-            return dict(res, status="REFUTED", replayed=True, args={"u": cu}, replay_detail="real %s round trip of %d us gives %d us" % (kind, cu, got))
-        # the relaxed model admits it but the real code does not: search nearby concretely before giving up
-        rng = random.Random(1)
-        B2 = BOUND_S * US
-        for _ in range(20000):
-            p = rng.randrange(0 if kind == "datetime" else -B2 + 1, B2)
-            if _real(kind, p) != p:
-                return dict(res, status="REFUTED", replayed=True, args={"u": p}, replay_detail="real %s round trip of %d us gives %d us" % (kind, p, _real(kind, p)))
-        return dict(res, status="UNKNOWN", message="relaxed model counterexample u=%d does not reproduce on CPython" % cu)
+            return dict(res, status="REFUTED", replayed=True, args={"u": cu, "off": co},
+                        replay_detail="real %s round trip of %d us (UTC offset %d us) gives %s us" % (kind, cu, co, got))
+        # the relaxed model admits it but the real code does not at this point: search concretely before giving up
+        hit = _concrete_roundtrip(kind, 20000, 1)
+        if hit:
+            return dict(res, **hit)
+        return dict(res, status="UNKNOWN", message="relaxed model counterexample u=%d off=%d does not reproduce on CPython" % (cu, co))
     return dict(res, status="UNKNOWN", message="solver: %s" % r)
 
 
 def q_limit(inst, timeout):
     """vacuity guard / stated limit of the claim: at 2^33 s the same query must be satisfiable (float64 resolution)"""
     t0 = time.time()
-    T = _terms()
-    z3, s, fresh = _solver()
-    u = z3.Int("u")
-    B = 2 * BOUND_S * US
-    s.add(u > 0, u < B)
-    sec = encode(T["to_seconds"]["timedelta"], u, s, z3, fresh)
-    back = encode(T["to_timedelta"]["float"], sec, s, z3, fresh)
-    s.add(back != u)
-    r = s.check()
+    try:
+        T = _terms()
+        z3, s, fresh = _solver()
+        u = z3.Int("u")
+        B = 2 * BOUND_S * US
+        s.add(u > 0, u < B)
+        sec = encode(T["to_seconds"]["timedelta"], u, s, z3, fresh)
+        back = encode(T["to_timedelta"]["float"], sec, s, z3, fresh)
+        s.add(back != u)
+        r = s.check()
+    except Cannot as e:
+        return {"status": "UNKNOWN", "message": "translator cannot encode %r (limit query not posed)" % (e.args,)}
     res = {"queries": 1, "solver_s": round(time.time() - t0, 3), "paths": 1}
     return dict(res, status="CONFIRMED" if str(r) == "sat" else "UNKNOWN", covered=["__end__"], message="limit query: %s" % r)
 
 
+def _concrete_order(kind, n, seed):
+    from reactivex.scheduler.scheduler import Scheduler
+    rng = random.Random(seed)
+    pts = _points(kind, rng, n)
+    for i in range(len(pts) - 1):
+        (a, oa), (b, ob) = pts[i], pts[i + 1]
+        for (p, op), (q, oq) in (((a, oa), (b, ob)), ((a, oa), (a + 1, ob)), ((a, oa), (a, ob))):
+            try:
+                sp, sq = Scheduler.to_seconds(_mk(kind, p, op)), Scheduler.to_seconds(_mk(kind, q, oq))
+                tp, tq = Scheduler.to_timedelta(_mk(kind, p, op)), Scheduler.to_timedelta(_mk(kind, q, oq))
+            except Exception as ex:  # noqa: BLE001
+                return {"status": "REFUTED", "replayed": True, "args": {"u1": p, "o1": op, "u2": q, "o2": oq}, "replay_detail": "to_seconds raised %r" % (ex,)}
+            if (p < q) != (sp < sq) or (p == q) != (sp == sq) or (p < q) != (tp < tq) or (p == q) != (tp == tq):
+                return {"status": "REFUTED", "replayed": True, "args": {"u1": p, "o1": op, "u2": q, "o2": oq},
+                        "replay_detail": "%s values at instants %d us (offset %d) and %d us (offset %d): to_seconds %r vs %r, to_timedelta %r vs %r"
+                                         % (kind, p, op, q, oq, sp, sq, tp, tq)}
+    return None
+
+
 def q_order(inst, timeout):
-    """strict order of aligned values is preserved by to_seconds (u1 < u2 => s1 < s2) within the bound"""
+    """order of aligned values is preserved by to_seconds (u1 < u2 => s1 < s2; same instant in two zones => same seconds and
+    same timedelta) within the bound, for every pair of UTC offsets"""
     t0 = time.time()
     kind = inst["kind"]
     try:
         T = _terms()
         z3, s, fresh = _solver()
-        u1, u2 = z3.Int("u1"), z3.Int("u2")
         B = BOUND_S * US
-        s.add(u1 > -B, u2 < B, u1 < u2)
-        s1 = encode(T["to_seconds"][kind], u1, s, z3, fresh)
-        s2 = encode(T["to_seconds"][kind], u2, s, z3, fresh)
-        s.add(s1 >= s2)
+        if kind == "timedelta":
+            u1, u2 = z3.Int("u1"), z3.Int("u2")
+            s.add(u1 > -B, u1 < B, u2 > -B, u2 < B)
+            x1, x2 = u1, u2
+        else:
+            x1, x2 = _dt_input(z3, s, "a", B), _dt_input(z3, s, "b", B)
+            u1, u2 = _instant(x1), _instant(x2)
+        s1 = encode(T["to_seconds"][kind], x1, s, z3, fresh)
+        s2 = encode(T["to_seconds"][kind], x2, s, z3, fresh)
+        t1 = encode(T["to_timedelta"][kind], x1, s, z3, fresh)
+        t2 = encode(T["to_timedelta"][kind], x2, s, z3, fresh)
+        s.add(z3.Or(z3.And(u1 < u2, z3.Or(s1 >= s2, t1 >= t2)), z3.And(u1 == u2, z3.Or(s1 != s2, t1 != t2))))
+        s.set("timeout", int(timeout * 1000))
         r = s.check()
     except Cannot as e:
+        hit = _concrete_order(kind, 3000, 7)
+        if hit:
+            hit["replay_detail"] += " (found by concrete replay: translator cannot encode %r)" % (e.args,)
+            return hit
         return {"status": "ERROR", "message": "translator cannot encode %r" % (e.args,)}
     res = {"queries": 1, "solver_s": round(time.time() - t0, 3), "paths": 1}
     if str(r) == "unsat":
+        hit = _concrete_order(kind, 1000, int(__import__("os").environ.get("VERIF_SEED", "0") or 0))
+        if hit:
+            return dict(res, message="solver says holds but CPython disagrees: model error or genuine violation", **hit)
         return dict(res, status="CONFIRMED", covered=["__end__"])
     if str(r) == "sat":
         m = s.model()
-        a, b = m[u1].as_long(), m[u2].as_long()
-        from reactivex.scheduler.scheduler import Scheduler, UTC_ZERO
-        mk = (lambda x: timedelta(microseconds=x)) if kind == "timedelta" else (lambda x: UTC_ZERO + timedelta(microseconds=x))
-        if not Scheduler.to_seconds(mk(a)) < Scheduler.to_seconds(mk(b)):
-            return dict(res, status="REFUTED", replayed=True, args={"u1": a, "u2": b}, replay_detail="to_seconds not strictly increasing on %d < %d" % (a, b))
-        return dict(res, status="UNKNOWN", message="relaxed-model counterexample does not reproduce")
+        ev = lambda t: m.eval(t, model_completion=True).as_long()  # noqa: E731
+        if kind == "timedelta":
+            args = {"u1": ev(u1), "o1": 0, "u2": ev(u2), "o2": 0}
+        else:
+            args = {"u1": ev(x1["w"]) - ev(x1["o"]), "o1": ev(x1["o"]), "u2": ev(x2["w"]) - ev(x2["o"]), "o2": ev(x2["o"])}
+        ok, detail = replay("q_order", inst, args)
+        if not ok:
+            return dict(res, status="REFUTED", replayed=True, args=args, replay_detail=detail)
+        hit = _concrete_order(kind, 5000, 1)
+        if hit:
+            return dict(res, **hit)
+        return dict(res, status="UNKNOWN", message="relaxed-model counterexample %r does not reproduce" % (args,))
     return dict(res, status="UNKNOWN", message=str(r))
 
 
@@ -349,8 +504,8 @@ def q_identity(inst, timeout):
         bad.append("to_datetime(datetime) = %r" % (T["to_datetime"]["datetime"],))
     if T["to_timedelta"]["timedelta"] != ("id",):
         bad.append("to_timedelta(timedelta) = %r" % (T["to_timedelta"]["timedelta"],))
-    if T["to_datetime"]["float"][0] != "fromtimestamp":
-        bad.append("to_datetime(float) = %r (not an aware fromtimestamp)" % (T["to_datetime"]["float"],))
+    if "fromtimestamp_naive" in repr(T["to_datetime"]["float"]):
+        bad.append("to_datetime(float) = %r (a naive datetime)" % (T["to_datetime"]["float"],))
     from reactivex.scheduler import ImmediateScheduler, CurrentThreadScheduler, TimeoutScheduler, NewThreadScheduler, EventLoopScheduler
     from reactivex.scheduler.scheduler import Scheduler, UTC_ZERO
     from reactivex.internal.basic import default_now
@@ -378,14 +533,20 @@ def q_identity(inst, timeout):
 
 def replay(fn_name, inst, args):
     """concrete re-execution of a counterexample on the real conversion functions"""
-    from reactivex.scheduler.scheduler import Scheduler, UTC_ZERO
+    from reactivex.scheduler.scheduler import Scheduler
     if fn_name == "q_roundtrip":
-        got = _real(inst["kind"], args["u"])
-        return got == args["u"], "round trip of %d us gives %d us" % (args["u"], got)
+        try:
+            got = _real(inst["kind"], args["u"], args.get("off", 0))
+        except Exception as ex:  # noqa: BLE001
+            return False, "round trip raised %r" % (ex,)
+        return got == args["u"], "round trip of %d us (UTC offset %d us) gives %s us" % (args["u"], args.get("off", 0), got)
     if fn_name == "q_order":
-        mk = (lambda x: timedelta(microseconds=x)) if inst["kind"] == "timedelta" else (lambda x: UTC_ZERO + timedelta(microseconds=x))
-        ok = Scheduler.to_seconds(mk(args["u1"])) < Scheduler.to_seconds(mk(args["u2"]))
-        return ok, "to_seconds order on %d < %d" % (args["u1"], args["u2"])
+        kind = inst["kind"]
+        p, q = _mk(kind, args["u1"], args.get("o1", 0)), _mk(kind, args["u2"], args.get("o2", 0))
+        sp, sq, tp, tq = Scheduler.to_seconds(p), Scheduler.to_seconds(q), Scheduler.to_timedelta(p), Scheduler.to_timedelta(q)
+        a, b = args["u1"], args["u2"]
+        ok = (a < b) == (sp < sq) and (a == b) == (sp == sq) and (a < b) == (tp < tq) and (a == b) == (tp == tq)
+        return ok, "instants %d / %d us: to_seconds %r / %r, to_timedelta %r / %r" % (a, b, sp, sq, tp, tq)
     r = q_identity({}, 10)
     return r["status"] == "CONFIRMED", r.get("replay_detail", "")
 
@@ -395,13 +556,15 @@ def JOBS(tier):
     for kind in ("timedelta", "datetime"):
         jobs.append({"fn": "q_roundtrip", "inst": {"kind": kind}})
         jobs.append({"fn": "q_order", "inst": {"kind": kind}})
+    jobs.append({"fn": "q_roundtrip", "inst": {"kind": "datetime_td"}})
     jobs.append({"fn": "q_limit", "inst": {}})
     jobs.append({"fn": "q_identity", "inst": {}})
     return jobs
 
 
 ENCODED = ["reactivex/scheduler/scheduler.py", "reactivex/internal/basic.py"]
-BOUNDS = {"quick": "|t| < 2^32 s (datetimes from the epoch on), microsecond-aligned values; at 2^33 s the round-trip query is "
+BOUNDS = {"quick": "|t| < 2^32 s (datetimes from the epoch on, written with any UTC offset strictly between -24 h and 24 h), "
+                   "microsecond-aligned values; at 2^33 s the round-trip query is "
                    "satisfiable (float64 resolution) -- that is the stated limit of the claim, not a finding",
           "thorough": "same queries"}
 ASSUMES = ["IEEE-754 double arithmetic is over-approximated by the standard rounding-error model (sound for 'holds'); counterexamples "
